@@ -49,6 +49,14 @@ impl<'i> Token<'i> {
         ensures r@ == css_text(*self),
     { unimplemented!() }
 }
+/// what output.rs::write_token_text appends for a token: cssparser's text, except that an integer the token carries
+/// exactly is written from its integer value (the function itself works on Token fields this abstract model does not
+/// have: it is exercised by the bounded generator RPX, family `other`)
+pub uninterp spec fn out_text(t: Token) -> Seq<char>;
+#[verifier::external_body]
+pub fn write_token_text(token: &Token, dest: &mut String) -> (r: Result<(), VxFmtError>)
+    ensures r.is_ok(), final(dest)@ == old(dest)@ + out_text(*token),
+{ unimplemented!() }
 /// sourcemap::SourceMapBuilder, modelled as the sequence of raw entries it was given
 pub struct MapEntry { pub dst_line: u32, pub dst_col: u32, pub src_line: u32, pub src_col: u32, pub source: Option<u32>, pub name: Option<Seq<char>> }
 pub struct SourceMapBuilder { pub entries: Ghost<Seq<MapEntry>>, pub names: Ghost<Seq<Seq<char>>> }
